@@ -72,7 +72,7 @@ fn any_item(slot: usize) -> Item {
 }
 
 #[kani::proof]
-#[kani::unwind(10)]
+#[kani::unwind(5)]
 #[kani::stub(<crate::parser::tokenizer::Tokenizer as core::iter::Iterator>::next, stub_next)]
 pub fn parameters_cursor() {
     let mut script: [Item; KMAX] = [None; KMAX];
@@ -92,7 +92,7 @@ pub fn parameters_cursor() {
         }
         i += 1;
     }
-    set_script(&script);
+    set_script_arr(script);
     let mut toks = Tokenizer::new_params(b"").peekable();
     let mut params = Parameters::with(&mut toks);
     let mut pos = 0usize;
